@@ -52,6 +52,8 @@ Inv_C05 == Consistent(b)
 Inv_C04 == stk # <<>> => LET t == stk[Len(stk)] IN DoUnmake(b, t.m, t.u) = t.before
 \* (Rules!ApplyMove transcribes the code's null move, clock quirk included, so the null move is covered too)
 Inv_C03 == stk # <<>> => LET t == stk[Len(stk)] IN b.r = ApplyMove(t.before.r, t.m)
-Inv_Legal == OppKingSafe(b) => (Obl_Legal(b, EpFix) /\ Obl_SemiValidate(b) /\ Obl_Outcome(b, EpFix))
+\* (the validator and outcome obligations are evaluated on the corpus positions and their successors; the
+\*  deeper states of the thorough runs keep to the generator / legality obligation, which is what they are for)
+Inv_Legal == OppKingSafe(b) => (Obl_Legal(b, EpFix) /\ (Len(stk) <= 1 => (Obl_SemiValidate(b) /\ Obl_Outcome(b, EpFix))))
 Inv_Valid == (stk # <<>> /\ stk[Len(stk)].m \in Legal(stk[Len(stk)].before.r)) => IsValid(b.r)
 =============================================================================
